@@ -190,14 +190,90 @@ func init() {
 		return mkSymBool(acc)
 	})
 	rt("StrEq", func(w *W, fr *frame, a []Value) Value { return w.equalVals(a[0], a[1]) })
+	rt("TraceShared", func(w *W, fr *frame, a []Value) Value {
+		it := a[0].iface()
+		if it == nil {
+			return Value{}
+		}
+		if p := it.v.ptr(); p != nil {
+			w.traceRegister(p, a[1].str(), 0)
+		}
+		return Value{}
+	})
+	rt("TraceTake", func(w *W, fr *frame, a []Value) Value {
+		out := make([]Value, len(w.traceEvents))
+		for i, e := range w.traceEvents {
+			out[i] = mkStr(e)
+		}
+		w.traceEvents = nil
+		w.traced = nil
+		return mkSlice(out)
+	})
 	rt("PanicValueString", func(w *W, fr *frame, a []Value) Value {
 		return mkStr(w.panicString(fr, a[0]))
 	})
 
 	// ---- sync ----
 	nop := func(w *W, fr *frame, a []Value) Value { return Value{} }
-	for _, n := range []string{"(*sync.Mutex).Lock", "(*sync.Mutex).Unlock", "(*sync.RWMutex).Lock", "(*sync.RWMutex).Unlock",
-		"(*sync.RWMutex).RLock", "(*sync.RWMutex).RUnlock", "(*sync.WaitGroup).Add", "(*sync.WaitGroup).Done", "(*sync.WaitGroup).Wait",
+	lockEv := func(kind string) intrinsicFn {
+		return func(w *W, fr *frame, a []Value) Value {
+			if w.traced != nil {
+				if p := a[0].ptr(); p != nil {
+					w.traceAccess(kind, p)
+				}
+			}
+			return Value{}
+		}
+	}
+	reg("(*sync.Mutex).Lock", lockEv("L"))
+	reg("(*sync.Mutex).Unlock", lockEv("U"))
+	reg("(*sync.RWMutex).Lock", lockEv("L"))
+	reg("(*sync.RWMutex).Unlock", lockEv("U"))
+	reg("(*sync.RWMutex).RLock", lockEv("L"))
+	reg("(*sync.RWMutex).RUnlock", lockEv("U"))
+	reg("(*sync.Once).Do", func(w *W, fr *frame, a []Value) Value {
+		// single-threaded semantics: run f once per Once value; traced as a section
+		p := a[0].ptr()
+		cell := &p.p.([]Value)[0] // first field holds the done flag (atomic.Uint32 struct or uint32)
+		done := false
+		switch cell.k {
+		case KStruct:
+			fs := cell.p.([]Value)
+			done = fs[len(fs)-1].c != 0
+		case KInt:
+			done = cell.c != 0
+		}
+		if w.traced != nil {
+			w.traceAccess("ONCE-ENTER", p)
+		}
+		if !done {
+			if w.traced != nil {
+				w.traceAccess("ONCE-BODY-BEGIN", p)
+			}
+			// mark done after the body (as sync.Once does), also when it panics
+			mark := func() {
+				switch cell.k {
+				case KStruct:
+					fs := cell.p.([]Value)
+					w.store(&fs[len(fs)-1], mkInt(fs[len(fs)-1].w, 1))
+				case KInt:
+					w.store(cell, mkInt(cell.w, 1))
+				}
+			}
+			func() {
+				defer mark()
+				w.callValue(fr, a[1], nil)
+			}()
+			if w.traced != nil {
+				w.traceAccess("ONCE-BODY-END", p)
+			}
+		}
+		if w.traced != nil {
+			w.traceAccess("ONCE-RETURN", p)
+		}
+		return Value{}
+	})
+	for _, n := range []string{"(*sync.WaitGroup).Add", "(*sync.WaitGroup).Done", "(*sync.WaitGroup).Wait",
 		"runtime.KeepAlive", "runtime.SetFinalizer", "runtime.GC", "runtime.Gosched", "(*sync.Pool).Put", "(*strings.Builder).copyCheck",
 		"internal/race.Acquire", "internal/race.Release", "internal/race.ReleaseMerge", "internal/race.Disable", "internal/race.Enable",
 		"internal/race.Read", "internal/race.Write", "internal/race.ReadRange", "internal/race.WriteRange",
